@@ -411,13 +411,17 @@ func propC14(o *out, r *rng, thorough bool) {
 			}
 		}
 		c14One(o, text, r, "generated")
+		if i%4 == 0 {
+			c14One(o, genOddStatement(r, "select"), r, "odd")
+		}
 		o.nontrivial(text)
 		if i < 5 {
 			o.sample(text)
 		}
 	}
 	for _, w := range []string{"SELECT a INTO db.rp.t FROM m", "SELECT a INTO db.rp.:MEASUREMENT FROM /x/", "SELECT mean(a) FROM (SELECT b FROM /re/ WHERE x =~ /y/) GROUP BY time(1m), /h/ fill(3.5) ORDER BY time DESC tz('UTC')",
-		"SELECT DISTINCT a FROM m", "SELECT count(DISTINCT a), top(b, c, 3) FROM m WHERE time > now() - 1h AND (h = 'x' OR h =~ /^a$/)"} {
+		"SELECT mean(v) FROM m GROUP BY time(5m, now())", "SELECT mean(v) FROM m WHERE time > now() - 1h GROUP BY time(5m, now() - 1m), host", "SELECT 1 + 2, v + (2 * 3) AS x FROM m GROUP BY time(1m + 1m)",
+		"SELECT v FROM (SELECT v FROM m WHERE time > now() GROUP BY time(1m, now())) WHERE time < now() + 1h", "SELECT DISTINCT a FROM m", "SELECT count(DISTINCT a), top(b, c, 3) FROM m WHERE time > now() - 1h AND (h = 'x' OR h =~ /^a$/)"} {
 		c14One(o, w, r, "witness")
 	}
 	for i := 0; i < n; i++ {
